@@ -35,6 +35,20 @@ def case_strategy(draw, big=False):
                                 nsrc=(1, 2), taper_prob=0.1))
     lam = gen.C_MHZ_M / case['f']
     ground = case['env']['kind'] != 'free'
+    # an insulator: one wire end of a junction is pulled back along its own wire by 2.5 .. 30 matching tolerances, so
+    # that two ends are close but NOT joined - and must stay so wherever the antenna is moved to
+    if all(o['type'] == 'wire' for o in case['objs']) and not case['xforms'] and not case['scales'] and draw(st.integers(0, 4)) == 0:
+        pts = {(i, e): np.array(o[e], dtype=float) for i, o in enumerate(case['objs']) for e in ('p1', 'p2')}
+        cands = [k for k in sorted(pts) if not (ground and pts[k][2] == 0.0) and
+                 any(k2 != k and np.linalg.norm(pts[k] - pts[k2]) < 1e-9 * lam for k2 in pts)]
+        if cands:
+            i, e = draw(st.sampled_from(cands))
+            o = case['objs'][i]
+            d = pts[(i, 'p2' if e == 'p1' else 'p1')] - pts[(i, e)]
+            minseg = min(np.linalg.norm(pts[(j, 'p2')] - pts[(j, 'p1')]) / oo['n'] for j, oo in enumerate(case['objs']))
+            gap = draw(st.floats(2.5e-3, 3e-2)) * minseg
+            o[e] = [float(x) for x in pts[(i, e)] + d / np.linalg.norm(d) * gap]
+            case['gap'] = True
     topo, objs = gen.stand_in_topology(case)
     lds = []
     for i in range(draw(st.integers(0, 2))):
@@ -153,10 +167,14 @@ def segpoints(m):
 
 
 def check(case):
-    why = rules.check(case)
+    # wire ends separated by an insulating gap: the separation rule for unjoined wires is not a precondition of the
+    # invariance and is waived for them
+    why = rules.check(case, sep=0.0) if case.get('gap') else rules.check(case)
     if why:
         return Result(skipped=why)
     labels = common.base_labels(case)
+    if case.get('gap'):
+        labels.append('ends-close-but-not-joined')
     motion, scale, pertag = case['motion'], case['scale'], case['pertag']
     lam = gen.C_MHZ_M / case['f']
     nt = False
@@ -307,7 +325,7 @@ def check(case):
         rb = [g.r_orig for g in mb.geo]
         if any(abs(a - b) > 1e-12 * b for a, b in zip(ra, rb)):
             fails.append(('options-vs-coordinates:radius', 'radii %s vs %s' % (ra, rb)))
-        if not fails and rules.check(crd) is None and len(ma.pulses) == len(mb.pulses):
+        if not fails and rules.check(crd, sep=0.0 if case.get('gap') else 2.0) is None and len(ma.pulses) == len(mb.pulses):
             ma.compute()
             mb.compute()
             t2 = common.gate(max(common.cond(ma), common.cond(mb)))
